@@ -209,6 +209,40 @@ def run(rep: Report, tier: str) -> None:
 		depth_key = s_.arg is not None and ".count('.')" in unparse(s_.arg)
 		ra.check(s_.anchored and depth_key, f'reader-order:{s_.text[:60]}', (SER, s_.node.lineno), f'`{s_.text}` must order the index paths by depth only (separator count; the stable sort keeps the numeric sibling order); comparing the path strings puts "10" before "2" and permutes siblings', s_.text)
 	ra.check(has_call(dacl, 'int'), 'reader-int-index', da.where, 'indices are no longer parsed with int(): "10" would sort/compare as text')
+	# siblings are the paths with the SAME PARENT PATH (all elements but the last). After the depth sort, groups under different parents are adjacent:
+	# comparing only the depth and the parent's own index merges `0.1.x` with `1.1.x` (dict[str, list[int]] / dict[str, list[Item]] as two parameters):
+	# the first parent gets both children, the second none
+	def parent_form(e: ast.AST) -> str | None:
+		e = expand_use(da.node, e, depth=4) if any(x is e for x in ast.walk(da.node)) else e
+		if isinstance(e, ast.Call) and isinstance(e.func, ast.Attribute) and e.func.attr == 'join' and e.args:
+			e = e.args[0]
+		if isinstance(e, ast.Subscript):
+			base_split = isinstance(e.value, ast.Call) and isinstance(e.value.func, ast.Attribute) and e.value.func.attr in ('split', 'rsplit', 'rpartition')
+			if base_split and e.value.func.attr == 'split' and isinstance(e.slice, ast.Slice):
+				return 'whole' if (e.slice.lower is None and unparse(e.slice.upper) == '-1' and e.slice.step is None) else 'partial'
+			if base_split and e.value.func.attr in ('rsplit', 'rpartition') and isinstance(e.slice, ast.Constant) and e.slice.value == 0:
+				return 'whole'
+			if base_split:
+				return 'partial'
+		return None
+	grp = []
+	for lp in nodes(da.node, ast.While):
+		for brk in nodes(lp, ast.Break):
+			for top, p_ in atoms(da.node, brk):
+				for a in [x for x in ast.walk(top) if isinstance(x, ast.Compare)]:
+					if len(a.ops) == 1 and isinstance(a.ops[0], (ast.Eq, ast.NotEq)) and lp.lineno <= getattr(a.left, 'lineno', 0) <= (lp.end_lineno or lp.lineno):
+						forms = [parent_form(a.left), parent_form(a.comparators[0])]
+						if any(f_ is not None for f_ in forms) and not any(a is g_[0] for g_ in grp):
+							grp.append((a, forms))
+	if not grp:
+		ra.skip('reader-groups-by-whole-parent-path', da.where, '_deserialize_attrs no longer ends a sibling group by comparing parent paths in a loop')
+	for a, forms in grp:
+		if 'partial' in forms:
+			ra.violate('reader-groups-by-whole-parent-path', (SER, a.left.lineno), f'the sibling group ends under `{unparse(a)[:90]}`, which compares only a PART of the parent path: after the depth sort the children of `0.1` and of `1.1` are adjacent and have the same parent index, so `merge(a: dict[str, list[int]], b: dict[str, list[Item]])` is restored as dict[str, list[int, Item]] / dict[str, list[T_Value]] — silently another type description', unparse(a))
+		elif forms == ['whole', 'whole']:
+			ra.ok('reader-groups-by-whole-parent-path', (SER, a.left.lineno))
+		else:
+			ra.skip('reader-groups-by-whole-parent-path', (SER, a.left.lineno), f'`{unparse(a)[:80]}`: one side is not recognisably a parent path')
 	daparams = da.params()
 	dbp, dap = (daparams[1], daparams[2]) if len(daparams) > 2 else ('db', 'data_attrs')
 	looked = [n for n in nodes(dacl, ast.Subscript) if unparse(n.value) == dbp and isinstance(n.slice, ast.Subscript) and unparse(n.slice.value) == dap]
